@@ -24,7 +24,15 @@ type Decoder struct {
 
 	// see Decoder.ExpectTypesInInterface description
 	expectedTypes []reflect.Type
+
+	// how deep current object is nested in other objects, see maxNestingDepth
+	depth int
 }
+
+// maxNestingDepth limits nesting of objects into each other: decoding is recursive, so without the limit few
+// megabytes of "object in object in object..." exhaust the stack and kill whole process. Real objects are
+// nested not deeper than few tens of levels.
+const maxNestingDepth = 512
 
 // NewDecoder returns a new decoder that reads from r.
 // Unfortunately, decoder can't work with part of data, so reader must be read all before decoding.
